@@ -96,6 +96,10 @@ func getOpIDs(s *spec.Swagger) map[string]bool {
 		piops := pathItemOps(v)
 
 		for _, op := range piops {
+			if op.ID == "" {
+				continue
+			}
+
 			rv[op.ID] = true
 		}
 	}
@@ -111,6 +115,7 @@ func pathItemOps(p spec.PathItem) []*spec.Operation {
 	rv = appendOp(rv, p.Delete)
 	rv = appendOp(rv, p.Head)
 	rv = appendOp(rv, p.Patch)
+	rv = appendOp(rv, p.Options)
 
 	return rv
 }
@@ -198,6 +203,11 @@ func mergePaths(primary *spec.Swagger, m *spec.Swagger, opIDs map[string]bool, m
 			// all the proivded specs are already unique.
 			piops := pathItemOps(v)
 			for _, piop := range piops {
+				if piop.ID == "" {
+					// operations without an id have nothing to disambiguate
+					continue
+				}
+
 				if opIDs[piop.ID] {
 					piop.ID = fmt.Sprintf("%v%v%v", piop.ID, "Mixin", mixIndex)
 				}
